@@ -37,5 +37,15 @@ Report ==
                PrintT("@@W " \o ToJson([pid |-> x.pid, clause |-> vs[i].clause, det |-> vs[i].det, b |-> vs[i].b,
                                        obs |-> vs[i].obs, exp |-> vs[i].exp]) \o " W@@")
         /\ PrintT("@@S " \o ToJson([pid |-> x.pid, n |-> Len(x.txs),
-                                   nv |-> Cardinality(UNION { SeqToSet(x.obs.vuln[DetectorNames[k]]) : k \in 1..Len(DetectorNames) })]) \o " S@@")
+                                   nv |-> Cardinality(UNION { SeqToSet(x.obs.vuln[DetectorNames[k]]) : k \in 1..Len(DetectorNames) }),
+                                   \* (detector, transaction) pairs cleared by ANOTHER member only
+                                   nc |-> Cardinality({ dj \in (1..Len(DetectorNames)) \X (1..Len(x.txs)) :
+                                             LET d == DetectorNames[dj[1]]
+                                                 t == x.txs[dj[2]] IN
+                                             /\ Eligible(d, t, Pool[t.c].isApp)
+                                             /\ ~SelfChecks(Pool[t.c].leaves, d, t.abs)
+                                             /\ ~Vulnerable(x.txs, Pool, d, dj[2]) }),
+                                   \* ... of which through a relative offset while another member declares the same target
+                                   n2 |-> Cardinality({ j \in 1..Len(x.txs) :
+                                             Cardinality({ k \in 1..Len(x.txs) : \E r \in 1..Len(x.txs[k].rel) : x.txs[k].rel[r].to = j }) > 1 })]) \o " S@@")
 =============================================================================
